@@ -295,8 +295,18 @@ func (s *sim) stashFor(p *sync.Pool) *poolStash {
 func (s *sim) stashTake(p *sync.Pool, r uint64) interface{} {
 	s.poolGets++
 	st := s.stashFor(p)
-	if st != nil && st.n > 0 && r%3 != 0 {
+	recycle := r%3 != 0
+	switch s.cfg.PoolMode {
+	case 1:
+		recycle = false
+	case 2:
+		recycle = true
+	}
+	if st != nil && st.n > 0 && recycle {
 		k := int((r >> 8) % uint64(st.n))
+		if s.cfg.PoolMode == 2 {
+			k = st.n - 1
+		}
 		x := st.items[k]
 		st.items[k] = st.items[st.n-1]
 		st.items[st.n-1] = nil
@@ -311,7 +321,14 @@ func (s *sim) stashTake(p *sync.Pool, r uint64) interface{} {
 //go:norace
 func (s *sim) stashPut(p *sync.Pool, x interface{}, r uint64) {
 	st := s.stashFor(p)
-	if r%4 == 0 || st == nil || st.n >= len(st.items) {
+	drop := r%4 == 0
+	switch s.cfg.PoolMode {
+	case 1:
+		drop = true
+	case 2:
+		drop = false
+	}
+	if drop || st == nil || st.n >= len(st.items) {
 		s.poolDropped++
 		return
 	}
